@@ -742,15 +742,26 @@ def _clean(text):
     return _ADDR.sub("0x..", _UUID.sub("<uuid>", text))
 
 
+# A driver may set this to a callable(int): 1 while an operation of the history runs, 0 otherwise.  GLPK calls abort()
+# on some degenerate problems (e.g. `Assertion failed: k1 < k2` in bflib/sgf.c while add_moma optimises a model with an
+# emptied reaction); when the interpreter dies *inside an operation* there is no exit to judge, and the driver discards
+# the history instead of reporting it.  Death at any other moment (undo functions, reading the model back) is reported.
+PHASE_SINK = None
+
+
 def _do(model, it):
     """one operation, followed by what any read access to the solver does anyway: flushing optlang's queue.
     optlang accepts a variable/constraint whose name is taken and fails only at the next flush, leaving the queue
     poisoned for good; such a history (add_loopless twice, a user constraint named like a metabolite, ...) violates
     the precondition 'names in the solver are unique' and is discarded, not judged."""
     from optlang.exceptions import ContainerAlreadyContains
+    if PHASE_SINK is not None:
+        PHASE_SINK(1)
     try:
         OPS[it["op"]](model, it)
     finally:
+        if PHASE_SINK is not None:
+            PHASE_SINK(0)
         try:
             model.solver.update()
         except ContainerAlreadyContains:
